@@ -714,4 +714,121 @@ example : loadFile grepF 8 false [("x".toList, 5)] ["a x".toList, "b x".toList, 
 example : loadFile grepF 6 true [("x".toList, 5)] ["a x".toList, "b".toList, "c x".toList] = ["a x".toList, "c x".toList] := by decide
 example : (loadArchive exWorld (run exWorld [.add 0 (some ["b".toList]) (some 1)]) 1 exLines).2 = ["ab".toList] := by decide
 
+
+/-! ## (d) `spec_factory.find` and `filters.loads` as registration entry points -/
+
+theorem stepX_foldl (w : World) (xs : List XOp) (st : State) :
+    xs.foldl (stepX w) st = (xs.flatMap (desugar w)).foldl (stepOp w) st := by
+  induction xs generalizing st with
+  | nil => rfl
+  | cons x r ih =>
+    rw [List.foldl_cons, List.flatMap_cons, List.foldl_append, ih]
+    congr 1
+    cases x with
+    | base o => rfl
+    | find c p =>
+      simp only [stepX, desugar, findSpec]
+      cases hr : (w.node c).delegRaw <;> cases hf : (w.node c).pointFilterable <;> simp [stepOp]
+      cases (addFilter w st c p (some 10000)) with
+      | mk st' r => cases r <;> rfl
+
+example : [XOp.find 0 (some ["bar".toList]), .base (.get 1)].flatMap (desugar exWorld) =
+    [.add 0 (some ["bar".toList]) (some 10000), .get 1] := by decide
+
+/-- **find_is_registration**: a history that also registers through `find(spec, pattern)` leaves FILTERS and
+_CACHE exactly as the history in which every `find` on a non-raw spec carrying `filterable` is replaced by
+`add_filter(spec, pattern)` and every other `find` is dropped -/
+theorem find_is_registration (w : World) (xs : List XOp) :
+    runX w xs = run w (xs.flatMap (desugar w)) := stepX_foldl w xs State.init
+
+example : (runX exWorld [.find 0 (some ["bar".toList]), .base (.get 1)]).reg = [(0, [("bar".toList, 10000)])] := by decide
+
+/-- so the union statement holds for histories with `find` too, for every interleaving -/
+theorem find_history_union (w : World) (rank : Comp → Nat) (hr : rankedBy w rank = true)
+    (xs : List XOp) (c : Comp) (k : Str) :
+    k ∈ keys (getFilters w (runX w xs) c).2.1 ↔
+      ∃ d, Reach w c d ∧ Registered w (xs.flatMap (desugar w)) d k := by
+  rw [find_is_registration]
+  exact get_is_union w rank hr _ c k
+
+example : (getFilters exWorld (runX exWorld [.base (.get 1), .find 0 (some ["bar".toList])]) 1).2.1
+    = [("bar".toList, 10000)] := by decide
+
+/-- a raw spec is refused by `find` before anything is registered or invalidated; a spec without a true
+`filterable` attribute registers nothing -/
+theorem find_refusals (w : World) (st : State) (c : Comp) (pats : Option (List Str)) :
+    ((w.node c).delegRaw = true → findSpec w st c pats = (st, .error .raw)) ∧
+    ((w.node c).delegRaw = false → (w.node c).pointFilterable = false → findSpec w st c pats = (st, .ok ())) := by
+  constructor
+  · intro h; simp [findSpec, h]
+  · intro h1 h2; simp [findSpec, h1, h2]
+
+example : (exWorld.node 2).delegRaw = false ∧ (exWorld.node 2).pointFilterable = false := by decide
+
+/-- the full statement for `filters.loads`: filters loaded from a filters file count like registrations -/
+def LoadsIsRegistration : Prop :=
+  ∀ (w : World) (rank : Comp → Nat), rankedBy w rank = true →
+    ∀ (ops : List Op) (entries : List (Comp × Allow)) (c : Comp) (k : Str),
+      k ∈ keys (getFilters w (loadsReg (run w ops) entries) c).2.1 ↔
+        ∃ d, Reach w c d ∧ (Registered w ops d k ∨ ∃ a, (d, a) ∈ entries ∧ k ∈ keys a)
+
+/-- [get impl, loads {point: {"b": 3}}, get impl]: `loads` does not invalidate `_CACHE`, the look-up is
+answered from the entry made before the file was loaded (known finding loads-overwrites-stale-cache) -/
+theorem loads_stale_witness : ¬ LoadsIsRegistration := by
+  intro h
+  have h1 := (h staleWorld (fun c => if c = 0 then 0 else 1) (by decide) [.get 1] [(0, [("b".toList, 3)])] 1
+    "b".toList).mpr
+    ⟨0, Reach.step (by decide) (by decide) (Reach.here (by decide)), Or.inr ⟨[("b".toList, 3)], by decide, by decide⟩⟩
+  revert h1
+  decide
+
+/-- … and it REPLACES what was registered before: [add point "a", loads {point: {"b": 3}}] loses "a" -/
+example : (getFilters staleWorld (loadsReg (run staleWorld [.add 0 (some ["a".toList]) (some 10000)])
+    [(0, [("b".toList, 3)])]) 1).2.1 = [("b".toList, 3)] := by decide
+
+/-- what does hold: when nothing was looked up before (empty `_CACHE`, the situation of `collect.py`, which
+loads the filters file once at start), a look-up after `loads` is the fresh walk over the loaded registry -/
+theorem loads_fresh_partial (w : World) (st : State) (entries : List (Comp × Allow)) (c : Comp)
+    (h : st.cache = []) :
+    (getFilters w (loadsReg st entries) c).2.1 = compute w (loadsReg st entries).reg c := by
+  simp [getFilters, loadsReg, h, cacheGet]
+
+example : (getFilters staleWorld (loadsReg State.init [(0, [("b".toList, 3)])]) 1).2.1 = [("b".toList, 3)] := by decide
+
+
+/-! ## (e) derived component types -/
+
+/-- `plugins.is_type(c, base)` answers exactly "the declared type derives from `base`" (reflexive-transitive closure of the base-class relation), whatever the depth -/
+theorem typeIs_iff_derives (tt : TypeTable) (h : declaredInOrder tt = true) (t base : Nat) (ht : t < tt.length) :
+    typeIs tt t base = true ↔ Derives tt t base :=
+  isSub_iff tt h base (tt.length + 1) t (by omega) ht
+
+
+/-- 0 = ComponentType-level root `datasource`, 1 = `parser`, 2 = a type derived from datasource, 3 = derived from 2 -/
+def exTypes : TypeTable := [none, none, some 0, some 2]
+example : declaredInOrder exTypes = true := by decide
+example : typeIs exTypes 3 0 = true ∧ typeIs exTypes 3 1 = false ∧ typeIs exTypes 0 2 = false := by decide
+example : Derives exTypes 3 0 := Derives.step (p := 2) (by decide) (Derives.step (p := 0) (by decide) (Derives.refl 0))
+
+/-- a component declared with a type DERIVED from `datasource`, at any depth, is a datasource -/
+theorem derived_type_is_datasource (tt : TypeTable) (h : declaredInOrder tt = true) (t dsT : Nat)
+    (ht : t < tt.length) (hder : Derives tt t dsT) : typeIs tt t dsT = true :=
+  (typeIs_iff_derives tt h t dsT ht).mpr hder
+
+example : typeIs exTypes 3 0 = true := by decide
+
+/-- … so in a world whose `isDs` flags are `is_type(c, datasource)`, a registration on such a component lands
+on the component itself and the component passes the gate of the look-up, exactly like a plain datasource -/
+theorem derived_datasource_registers (tt : TypeTable) (h : declaredInOrder tt = true) (t dsT : Nat)
+    (ht : t < tt.length) (hder : Derives tt t dsT) (w : World) (c : Comp)
+    (htype : (w.node c).isDs = typeIs tt t dsT) (hraw : (w.node c).delegRaw = false)
+    (hf : (w.node c).delegFilterable = true) (ps : List Str) (m : Int) (hm : 0 < m) (hps : ∀ p ∈ ps, p ≠ []) :
+    addTargets w c (some ps) (some m) = .ok [c] ∧
+      (w.enabled = true → (w.node c).attrFalse = false → gate w c = true) := by
+  have hds : (w.node c).isDs = true := by rw [htype]; exact derived_type_is_datasource tt h t dsT ht hder
+  refine ⟨add_on_datasource w c ps m hds hraw hf hm hps, ?_⟩
+  intro he ha
+  simp [gate, he, ha, hds]
+
+example : (exWorld.node 1).isDs = typeIs exTypes 3 0 := by decide
 end IV.Filters
